@@ -1075,7 +1075,7 @@ namespace
 
 namespace BitSerializer::MsgPack::Detail
 {
-	CMsgPackStreamReader::CMsgPackStreamReader(std::istream& inputStream, const SerializationOptions& serializationOptions) noexcept
+	CMsgPackStreamReader::CMsgPackStreamReader(std::istream& inputStream, const SerializationOptions& serializationOptions)
 		: mBinaryStreamReader(inputStream)
 		, mSerializationOptions(serializationOptions)
 	{ }
